@@ -146,7 +146,7 @@ def build(cfg):
         suspicious = []
         for s in glob.glob(os.path.join(REPO, "src", "*.[ch]")):
             txt = open(s, errors="replace").read()
-            for pat in ("__asm", "asm(", "asm volatile", "syscall(", "rdrand", "rdseed", "_Thread_local", "__thread", "pthread_", "mtx_", "atomic"):
+            for pat in ("__asm", "asm(", "asm volatile", "syscall(", "rdrand", "rdseed", "_Thread_local", "__thread", "pthread_", "mtx_", "atomic", "__sync_", "mktime", "localtime"):
                 if pat in txt:
                     suspicious.append("%s: %s" % (os.path.basename(s), pat))
         link = [cxx] + [f for f in hflags if f.startswith("-fsanitize") or f in ("-g",)] + sim_objs + lib_objs + \
